@@ -402,19 +402,6 @@ impl CompressedResponse {
         cached_options: &CompressionOptions,
         do_cache: bool,
     ) -> Result<Response<Bytes>, &'static str> {
-        if self.compress == CompressPreference::None {
-            return Ok(self.clone_identity_set_compression(
-                self.get_identity().body().clone(),
-                HeaderValue::from_static("identity"),
-            ));
-        }
-
-        let options = if do_cache {
-            cached_options
-        } else {
-            regular_options
-        };
-
         let values = match request
             .headers()
             .get("accept-encoding")
@@ -428,6 +415,25 @@ impl CompressedResponse {
         let disable_identity = values
             .iter()
             .any(|v| v.value == "identity" && v.quality == 0.0);
+
+        if self.compress == CompressPreference::None {
+            // We won't compress, so identity is the only option also here.
+            if disable_identity {
+                return Err(
+                    "identity compression is the only option, but the client refused to accept it",
+                );
+            }
+            return Ok(self.clone_identity_set_compression(
+                self.get_identity().body().clone(),
+                HeaderValue::from_static("identity"),
+            ));
+        }
+
+        let options = if do_cache {
+            cached_options
+        } else {
+            regular_options
+        };
 
         let only_identity = values.len() == 1
             && values[0]
